@@ -199,7 +199,8 @@ Theorem C08_parse_request_block_counts :
 Proof. exact parse_request_block_counts. Qed.
 
 (* MAIN, whole connection: on a fault-free transport, for EVERY buffer size, every list of well-formed handler
-   scripts (reading, buffered reading, stream switching, writing, early return, own status, failing), every
+   scripts that await the reads they start (reading, buffered reading, stream switching, writing, early return, own
+   status, failing; NOT the read polled once and dropped of op 11: see C08_abandoned_read_counterexample), every
    read/write readiness pattern and every client whose segments are whole records and whose gates ask only for
    management replies owed for records of EARLIER segments (pipelining allowed), the connection task RETURNS:
    server and peer never wait for each other *)
@@ -208,6 +209,7 @@ Theorem C08_peer_never_deadlocks :
     (sg : list (N * N * list ReqWire.rcd)) (w0 : world),
   B < SIZE_LIMIT - 8 ->
   scripts_ok true scripts ->
+  Forall no_abandoned_read scripts ->
   segs w0 = enc_segs sg ->
   peer_segs 0 sg ->
   wlog w0 = [] ->
@@ -229,6 +231,7 @@ Theorem C08_client_never_deadlocks :
     (cs : list (N * N * creq)) (w0 : world),
   B < SIZE_LIMIT - 8 ->
   scripts_ok true scripts ->
+  Forall no_abandoned_read scripts ->
   segs w0 = enc_client cs ->
   client_segs 0 0 cs ->
   wlog w0 = [] ->
@@ -251,3 +254,27 @@ Proof. exact ex2_never_deadlocks. Qed.
 Example C08_client_example : forall norm maxc,
   fst (run_loop norm maxc (nb (ex3_w 1) + 4) (new_parser 64) ex3_scripts 0 (ex3_w 1)) = ORet.
 Proof. exact ex3_never_deadlocks. Qed.
+
+(* the hypothesis no_abandoned_read of the two MAIN theorems cannot be dropped: a well-formed script with op 11 (a read
+   polled once and dropped while Request::poll_output has written only part of a management reply) followed by a
+   StreamWriter write, every other hypothesis satisfied: the run ends in the wait-for cycle; with the read awaited it
+   returns.  Instances: Async/PeerProofs2.v (ex2p_hyps ...), Async/PeerProofs3.v (ex3p_hyps ...) *)
+Example C08_abandoned_read_counterexample :
+  (scripts_ok true (ex2p_scripts 11) /\ ~ Forall no_abandoned_read (ex2p_scripts 11) /\
+   segs ex2p_w = enc_segs ex2p_sg /\ peer_segs 0 ex2p_sg /\ wlog ex2p_w = [] /\ no_fault (wscript ex2p_w) /\
+   no_read_fault (rscript ex2p_w) /\ stop_at ex2p_w = 0 /\ stopped ex2p_w = false) /\
+  fst (run_loop (fun b => b) 10 (nb ex2p_w + 4) (new_parser 64) (ex2p_scripts 11) 0 ex2p_w) = ODeadlock /\
+  fst (run_loop (fun b => b) 10 (nb ex2p_w + 4) (new_parser 64) (ex2p_scripts 1) 0 ex2p_w) = ORet.
+Proof.
+  destruct ex2p_hyps as (_ & H2 & H3 & _ & H5 & H6 & H7 & H8 & H9 & H10 & H11 & _).
+  split; [exact (conj H2 (conj H3 (conj H5 (conj H6 (conj H7 (conj H8 (conj H9 (conj H10 H11))))))))|]. split; [exact (proj1 ex2p_abandoned_read_deadlocks)|exact (proj1 ex2p_awaited_read_returns)].
+Qed.
+Example C08_abandoned_read_counterexample_client :
+  (scripts_ok true (ex3p_scripts 11) /\ ~ Forall no_abandoned_read (ex3p_scripts 11) /\
+   segs ex3p_w = enc_client ex3p_cs /\ client_segs 0 0 ex3p_cs /\ wlog ex3p_w = [] /\ no_fault (wscript ex3p_w)) /\
+  fst (run_loop (fun b => b) 10 (nb ex3p_w + 4) (new_parser 64) (ex3p_scripts 11) 0 ex3p_w) = ODeadlock /\
+  fst (run_loop (fun b => b) 10 (nb ex3p_w + 4) (new_parser 64) (ex3p_scripts 1) 0 ex3p_w) = ORet.
+Proof.
+  destruct ex3p_hyps as (_ & H2 & H3 & _ & H5 & H6 & H7 & H8).
+  split; [exact (conj H2 (conj H3 (conj H5 (conj H6 (conj H7 H8)))))|]. split; [exact (proj1 ex3p_abandoned_read_deadlocks)|exact (proj1 ex3p_awaited_read_returns)].
+Qed.
